@@ -35,6 +35,13 @@ fn stream_conn_err(e: &ConnErr) -> StreamErrorIncoming {
     }
 }
 
+/// Record a transport-contract violation (bounded: a looping offender must not eat the memory).
+fn push_misuse(log: &mut Vec<String>, m: String) {
+    if log.len() < 8 {
+        log.push(m);
+    }
+}
+
 fn sid(id: u64) -> StreamId {
     StreamId::try_from(id).expect("simnet stream id in range")
 }
@@ -213,9 +220,7 @@ fn transfer<D: Buf>(g: &mut NetInner, side: usize, id: u64, data: &mut D, mut bu
     while budget > 0 && data.has_remaining() {
         let c = data.chunk();
         if c.is_empty() {
-            g.sides[side]
-                .misuse
-                .push(format!("stream {id}: Buf reports {} remaining but an empty chunk", data.remaining()));
+            push_misuse(&mut g.sides[side].misuse, format!("stream {id}: Buf reports {} remaining but an empty chunk", data.remaining()));
             break;
         }
         let take = c.len().min(budget);
@@ -291,6 +296,8 @@ impl<B: Buf> quic::SendStream<B> for SimSend<B> {
                 }
             };
             transfer(&mut g, self.side, self.id, data, accept, false);
+            let left = data.remaining();
+            g.stream(self.id).pipe_w(self.side).unwrap().pending_write = left;
             if data.has_remaining() {
                 // flow control: more credit arrives "later" - the task is re-polled
                 cx.waker().wake_by_ref();
@@ -305,14 +312,21 @@ impl<B: Buf> quic::SendStream<B> for SimSend<B> {
     fn send_data<T: Into<WriteBuf<B>>>(&mut self, data: T) -> Result<(), StreamErrorIncoming> {
         if self.writing.is_some() {
             let mut g = self.net.lock();
-            g.sides[self.side]
-                .misuse
-                .push(format!("stream {}: send_data while a write is in flight", self.id));
+            // after a connection error an interrupted write legitimately stays behind
+            if g.sides[self.side].conn_err.is_none() {
+                push_misuse(&mut g.sides[self.side].misuse, format!("stream {}: send_data while a write is in flight", self.id));
+            }
             return Err(StreamErrorIncoming::ConnectionErrorIncoming {
                 connection_error: ConnectionErrorIncoming::InternalError("send_data while not ready".into()),
             });
         }
-        self.writing = Some(data.into());
+        let w: WriteBuf<B> = data.into();
+        {
+            let mut g = self.net.lock();
+            let n = w.remaining();
+            g.stream(self.id).pipe_w(self.side).unwrap().pending_write = n;
+        }
+        self.writing = Some(w);
         self.partials = 0;
         Ok(())
     }
@@ -323,9 +337,7 @@ impl<B: Buf> quic::SendStream<B> for SimSend<B> {
             return Poll::Ready(Err(stream_conn_err(e)));
         }
         if self.writing.as_ref().map(|w| w.has_remaining()).unwrap_or(false) {
-            g.sides[self.side]
-                .misuse
-                .push(format!("stream {}: finish while a write is in flight", self.id));
+            push_misuse(&mut g.sides[self.side].misuse, format!("stream {}: finish while a write is in flight", self.id));
         }
         let (side, id) = (self.side, self.id);
         if side == (id & 1) as usize {
@@ -375,9 +387,7 @@ impl<B: Buf> quic::SendStreamUnframed<B> for SimSend<B> {
             return Poll::Ready(Err(StreamErrorIncoming::StreamTerminated { error_code: code }));
         }
         if self.writing.is_some() {
-            g.sides[self.side]
-                .misuse
-                .push(format!("stream {}: poll_send while a framed write is in flight", self.id));
+            push_misuse(&mut g.sides[self.side].misuse, format!("stream {}: poll_send while a framed write is in flight", self.id));
         }
         let n = buf.chunk().len();
         if n == 0 {
@@ -629,7 +639,7 @@ impl<B: Buf> h3_datagram::quic_traits::SendDatagram<B> for SimDatagramSend {
         while buf.has_remaining() {
             let c = buf.chunk();
             if c.is_empty() {
-                g.sides[self.side].misuse.push("datagram Buf: remaining > 0 but empty chunk".into());
+                push_misuse(&mut g.sides[self.side].misuse, "datagram Buf: remaining > 0 but empty chunk".into());
                 break;
             }
             let n = c.len();
